@@ -201,8 +201,21 @@ func (u *universe) query(r *vlib.R) (string, string) {
 		tag = "nearmiss"
 	case 9: // root
 		return vlib.Pick(r, []string{".", ""}), "root"
-	case 10: // deep subdomain
-		l = append(randLabels(r, 4+r.Intn(6)), l...)
+	case 10: // deep subdomain: a handful of labels, or as deep as a name can be (up to 127 labels / 255 octets)
+		if r.Chance(1, 2) {
+			l = append(randLabels(r, 4+r.Intn(6)), l...)
+		} else {
+			k := vlib.Pick(r, []int{22, 23, 24, 25, 26, 30, 40, 63, 64, 100, 120})
+			base := len(joinLabels(l))
+			for k > 0 && base+2*k > 250 {
+				k--
+			}
+			pre := make([]string, k)
+			for i := range pre {
+				pre[i] = vlib.Pick(r, []string{"a", "b", "x", "0"})
+			}
+			l = append(pre, l...)
+		}
 		tag = "deep"
 	case 11: // a dot INSIDE the first label: x\.example.com.
 		l[0] = vlib.Pick(r, []string{"x", "www", "a"}) + "\\." + l[0]
@@ -276,7 +289,7 @@ func emitQueries(r *vlib.R, u *universe, emit func(string), k int) int {
 		q, _ := u.query(r)
 		if r.Chance(2, 5) {
 			if wn := wireName(q); wn != "" {
-				emit(fmt.Sprintf("bl serve %s %d", enc(wn), vlib.Pick(r, qtypes)))
+				emit(fmt.Sprintf("bl %s %s %d", vlib.Pick(r, []string{"serve", "wserve"}), enc(wn), vlib.Pick(r, qtypes)))
 				n++
 				continue
 			}
@@ -450,6 +463,18 @@ func genPersistCase(r *vlib.R, emit func(string)) int {
 			emit(fmt.Sprintf("bl persist %d %s", pending[j], fault))
 			pending = append(pending[:j], pending[j+1:]...)
 			n++
+			if fault != "ok" && len(pending) == 0 && r.Chance(2, 3) {
+				// storage is back; the operator repeats a call for names that are already in memory
+				if p := presentEntry(r); p != "" {
+					if r.Bool() {
+						emit("bl set " + enc(p))
+					} else {
+						emit("bl setbatch " + encList([]string{p, presentEntry(r)}))
+					}
+					emit("bl file")
+					n += 2
+				}
+			}
 			continue
 		}
 		if r.Chance(1, 7) {
@@ -829,6 +854,29 @@ func gen(r *vlib.R, n int, tier string, emit func(string)) {
 	emit("bl remove " + enc("*.same.example"))
 	emit("bl file")
 	emit("bl fresh " + enc("first.example.com") + " " + enc("second.example.com"))
+	for _, k := range []int{23, 24, 25, 26, 60, 118} {
+		deep := strings.Repeat("a.", k) + "ads.example.com."
+		emit("bl exists " + enc(deep))
+		emit("bl serve " + enc(deep) + " 1")
+		emit("bl wserve " + enc(deep) + " 1")
+		emit("bl wserve " + enc(strings.Repeat("b.", k)+"x.trk.remote.example.") + " 28")
+	}
+	emit("bl wserve " + enc("sub.example.com.") + " 16")
+	emit("bl wserve " + enc("example.org.") + " 1")
+	emit("bl held")
+	// a save fails, storage recovers, the operator repeats the same call: it must reach disk
+	emit("bl new 0.0.0.0 :: _ " + encList([]string{"configured.example.com"}) + " _")
+	emit("bl set " + enc("configured.example.com"))
+	emit("bl file")
+	emit("bl mset " + enc("retry.example.com"))
+	emit("bl persist 2 nodir")
+	emit("bl set " + enc("retry.example.com"))
+	emit("bl file")
+	emit("bl msetbatch " + encList([]string{"r1.example.com", "*.r2.example.com"}))
+	emit("bl persist 3 fsize")
+	emit("bl setbatch " + encList([]string{"r1.example.com", "*.r2.example.com"}))
+	emit("bl file")
+	emit("bl reload")
 	crashes, concs := 14, 12
 	raceBudget = 8
 	apiBudget = 40
